@@ -56,6 +56,7 @@ def decCollOp : Dec (Coll.Op (List UInt64))
   | .list [.atom "geom", i] => (nat i).map .geom
   | .list [.atom "setlayout", l] => (nat l).map .setLayout
   | .list (.atom "push" :: gs) => (gs.mapM decMember).map .push
+  | .list [.atom "grow", i, l] => do pure (.grow (← nat i) (← nat l))
   | _ => none
 
 def encCollOb : Coll.Ob (List UInt64) → Sexp
